@@ -2,8 +2,13 @@ import DdoModel.Examples.PspDp
 /-! Statements about the Lean model of the psp example (`PspDp.lean`).  Proved here: the specification table the driver uses
     is `Psp.best` (`best_eq_table`); the merge operator always forgets `next` and never raises `time` / `prev_demands`
     (`merge_next`, `merge_time_le`, `merge_pd_le`), `relax` leaves the cost alone; the stocking part of the rough bound as
-    shipped never tightens it (`rub_ge_neg_mst`: the bound is at least `-mst[members]`).  Stated, not proved (`def … : Prop`; the
-    driver checks them pointwise on every generated case): `RubAdmissibleStmt`, `MergeOkStmt`, `DpExactStmt`. -/
+    shipped never tightens it (`rub_ge_neg_mst`: the bound is at least `-mst[members]`).  Stated here (`def … : Prop`; the
+    driver checks them pointwise on every generated case): `RubAdmissibleStmt`, `MergeOkStmt`, `DpExactStmt`.
+    PROVED in `PspProofs*.lean`: `rubAdmissible : RubAdmissibleStmt I` (`PspProofsRub.lean`, with `mstOf_le_walk`: what
+    `ub_utils::mst` computes is a lower bound of the changeover cost of every sequence of productions visiting the members);
+    `mergeOk_partial : I.T ≤ 2^63 → MergeOkStmt I` and the kernel-checked refutation without the triangle inequality
+    `mergeOk_fails_without_triangle` (finding D15; `PspProofsMerge.lean`, with `bestRem_mono`); `wfRel`, `noClampDom`,
+    `psp_relaxed_ub_bestRem` (`PspProofsWf.lean`).  Still stated only: `DpExactStmt`. -/
 namespace Ddo.Examples.PspModel
 open Ddo Ddo.Examples Ddo.Examples.Util
 
